@@ -59,7 +59,7 @@ func equal(elems []any, nonTerminals []lex.Token, defaultField string) ([]any, [
 		return elems, nonTerminals, false
 	}
 
-	if literals, ok := isChainedOrLiterals(value); ok && len(literals) > 1 {
+	if literals, ok := isChainedOrLiterals(value, defaultField); ok && len(literals) > 1 {
 		elems = []any{
 			expr.IN(
 				term,
@@ -78,9 +78,16 @@ func equal(elems []any, nonTerminals []lex.Token, defaultField string) ([]any, [
 	return elems, drop(nonTerminals, 1), true
 }
 
-func isChainedOrLiterals(in *expr.Expression) (out []*expr.Expression, ok bool) {
+func isChainedOrLiterals(in *expr.Expression, defaultField string) (out []*expr.Expression, ok bool) {
 	if in == nil {
 		return out, false
+	}
+
+	// inside a value list the default field has already been applied to the values, undo that
+	if col, isCol := in.Left.(*expr.Expression); defaultField != "" && in.Op == expr.Equals && isCol {
+		if val, isVal := in.Right.(*expr.Expression); isVal && col.Left == expr.Column(defaultField) {
+			in = val
+		}
 	}
 
 	if in.Op == expr.Literal {
@@ -97,8 +104,8 @@ func isChainedOrLiterals(in *expr.Expression) (out []*expr.Expression, ok bool) 
 			return out, false
 		}
 
-		l, isLLiterals := isChainedOrLiterals(left)
-		r, isRLiterals := isChainedOrLiterals(right)
+		l, isLLiterals := isChainedOrLiterals(left, defaultField)
+		r, isRLiterals := isChainedOrLiterals(right, defaultField)
 		return append(l, r...), isLLiterals && isRLiterals
 	}
 
